@@ -263,6 +263,64 @@ def resync_retry_family():
                 yield {'names': ['A', 'C', 'B'], 'phens': CONFLICT, 'cache': 1000, 'ops': ops}
 
 
+def _dist_constants():
+    """integer literals of the distributed component's source between 64 and 3000 (a cap on a batch, a slice bound …)"""
+    import ast
+    from harness import core
+    out = set()
+    for f in ('bobocep/dist/tcp.py', 'bobocep/dist/devman.py'):
+        try:
+            tree = ast.parse((core.REPO / f).read_text())
+        except Exception:   # noqa
+            continue
+        for n in ast.walk(tree):
+            if isinstance(n, ast.Constant) and type(n.value) is int and 64 <= n.value <= 3000:
+                out.add(n.value)
+    return sorted(out)
+
+
+def big_backlog_family():
+    """a backlog of MANY changes: 40 patterns started by the same datum, a link down for half a minute (shorter than the
+    resync period) while well over a thousand run changes pile up for that peer (more than any batch bound the source
+    mentions, see `_dist_constants`), then the link heals and the backlog goes out."""
+    npat = 40
+    need = max([1100] + [int(c * 1.1) + 40 for c in _dist_constants()])
+    events = min(60, (need + npat - 1) // npat)
+    phens = [('ph', [P(f'p{i}', ['0000', '0000', '0000'], [[S('eq:0')], [S('eq:1')], [S('eq:2')]]) for i in range(npat)])]
+    for names in (['A', 'B', 'C'],):
+        ops = ['sync', 'down A B']
+        for k in range(events):
+            ops += ['in A 0', 'pass A', 'del A C']
+            if k % 2:
+                ops.append('tick 1')
+        ops += ['up A B', 'tick 3', 'sync', 'tick 6', 'sync', 'heal']
+        yield {'names': names, 'phens': phens, 'cache': 1000, 'ops': ops}
+
+
+def long_run_family():
+    """more than an hour of simulated time on three instances that all keep running their loops: several hundred local
+    changes at the three instances, a link that goes down and comes back every few minutes (short outages: backlog; long
+    ones: resync), pings in the quiet stretches."""
+    for variant in (0, 1):
+        ops = []
+        for i in range(420):
+            who = 'ABC'[(i * 5 + i // 7) % 3]
+            ops += [f'in {who} {(i * 3 + i // 4) % 4 if i % 17 else 9}', f'tick {(3, 7, 11, 2)[(i + variant) % 4]}']
+            if i % 60 == 20 + variant:
+                ops.append('down A B')
+            if i % 60 == (24 if (i // 60) % 2 else 34) + variant:
+                ops.append('up A B')
+            if i % 90 == 45:
+                ops.append('down C A')
+            if i % 90 == 50:
+                ops.append('up C A')
+            ops.append('sync')
+            if i % 100 == 99:
+                ops += ['tick 35', 'sync', 'tick 31', 'sync']
+        ops.append('heal')
+        yield {'names': ['A', 'B', 'C'], 'phens': CONFLICT if variant == 0 else LOOPY, 'cache': 1000, 'ops': ops}
+
+
 def change_during_resync_family():
     """the engine thread publishes a local change WHILE the outgoing thread is sending a RESYNC snapshot (taken before the
     change): the change is not in that snapshot, so it still has to go out afterwards -- at start-up (everybody is in the
